@@ -29,6 +29,7 @@ POSITIONS = [
     ("critic-deletion-reject", b"a {--{P}--} b\n", "text"), ("critic-substitution-accept", b"a {~~old~>{P}~~} b\n", "text"), ("critic-substitution-reject", b"a {~~{P}~>new~~} b\n", "text"),
     ("metadata-value", None, "meta"),
 ]
+LATEX_MAY_OMIT = {"link-title"}          # LaTeX has no place for a link title
 POS_EXT = {"critic-highlight-accept": E["CRITIC_ACCEPT"], "critic-addition-accept": E["CRITIC_ACCEPT"], "critic-substitution-accept": E["CRITIC_ACCEPT"],
            "critic-highlight-reject": E["CRITIC_REJECT"], "critic-deletion-reject": E["CRITIC_REJECT"], "critic-substitution-reject": E["CRITIC_REJECT"]}
 SKELETONS = [(b"", b""), (b"qb10 before\n\n", b"\nqb20 after\n"), (b"* qb11 item\n\n# qb10 head\n\n", b"\n> qb20 quote\n\n    qb21 code\n\nqb22 [qb23](u) `qb24`\n")]
@@ -185,7 +186,9 @@ def make_case():
                 v.append((sig("nesting"), "LaTeX structure: %s for %r" % (err, doc), case_d))
             m = re.search(rb"qz01(.*?)qz02", out, re.S)
             if not m:
-                if re.search(rb"qz01(.*?)qz02", base, re.S): v.append((sig("markers-lost"), "marker words around the probe are missing from the LaTeX output", case_d))
+                # judged against the source, not against the same library's rendering of a neighbouring document: text that no LaTeX rendering shows
+                # (a footnote never called, an expansion that only the preamble defines in snippet mode) is listed explicitly
+                if re.search(rb"qz01(.*?)qz02", base, re.S) or pname not in LATEX_MAY_OMIT: v.append((sig("markers-lost"), "marker words around the probe are missing from the LaTeX output", case_d))
             elif kind != "meta":
                 mid = m.group(1); want = c if tight else b" " + c + b" "
                 if c in RESERVED_LATEX and kind != "verbatim":
